@@ -58,30 +58,47 @@ deriving Repr
 
 def Caches.empty : Caches := ⟨[], [], []⟩
 
-/-- one accessor call: fill the cache if empty, answer from it (message queries drop the message
-    itself: `messageSetToSlice`) -/
-def query (edges eedges : List (Ref × Ref)) (n : Nat) (c : Caches) (r : Ref) : QKind → Caches × List Ref
-  | .dependencies =>
-    match c.deps.find? (·.1 == r) with
-    | some (_, s) => (c, s.filter (· != r))
-    | none => let s := dfs (succs edges) (n+1) r []
-              ({ c with deps := (r, s) :: c.deps }, s.filter (· != r))
-  | .dependents =>
-    match c.dpts.find? (·.1 == r) with
-    | some (_, s) => (c, s.filter (· != r))
-    | none => let s := dfs (preds edges) (n+1) r []
-              ({ c with dpts := (r, s) :: c.dpts }, s.filter (· != r))
-  | .enumDependents =>
-    match c.edpts.find? (·.1 == r) with
-    | some (_, s) => (c, s)
-    | none =>
-      -- the users of the enum, each followed by its dependents
-      let s := (preds eedges r).foldl (fun seen d => if d ∈ seen then seen else dfs (preds edges) (n+1) d (d :: seen)) []
-      ({ c with edpts := (r, s) :: c.edpts }, s)
+/-- adjacency for an enum's dependents: from the enum to its users, then from message to the
+    messages using it -/
+def enumAdj (edges eedges : List (Ref × Ref)) (e : Ref) (x : Ref) : List Ref :=
+  if x = e then preds eedges e else preds edges x
 
-def runQueries (edges eedges : List (Ref × Ref)) (n : Nat) : Caches → List (Ref × QKind) → List (List Ref)
+/-- recursion fuel: one more than the number of edges bounds every visited set -/
+def fuelFor (edges eedges : List (Ref × Ref)) : Nat := edges.length + eedges.length + 2
+
+/-- the closure an accessor computes when its cache is empty -/
+def closure (edges eedges : List (Ref × Ref)) (r : Ref) : QKind → List Ref
+  | .dependencies => dfs (succs edges) (fuelFor edges eedges) r []
+  | .dependents => dfs (preds edges) (fuelFor edges eedges) r []
+  | .enumDependents => dfs (enumAdj edges eedges r) (fuelFor edges eedges) r []
+
+/-- what the accessor returns from the (complete) set: message queries drop the message itself
+    (`messageSetToSlice`) -/
+def present (r : Ref) (k : QKind) (s : List Ref) : List Ref :=
+  match k with
+  | .enumDependents => s
+  | _ => s.filter (· != r)
+
+def Caches.get (c : Caches) (r : Ref) : QKind → Option (List Ref)
+  | .dependencies => (c.deps.find? (·.1 == r)).map (·.2)
+  | .dependents => (c.dpts.find? (·.1 == r)).map (·.2)
+  | .enumDependents => (c.edpts.find? (·.1 == r)).map (·.2)
+
+def Caches.put (c : Caches) (r : Ref) (k : QKind) (s : List Ref) : Caches :=
+  match k with
+  | .dependencies => { c with deps := (r, s) :: c.deps }
+  | .dependents => { c with dpts := (r, s) :: c.dpts }
+  | .enumDependents => { c with edpts := (r, s) :: c.edpts }
+
+/-- one accessor call: fill the cache if empty, answer from it -/
+def query (edges eedges : List (Ref × Ref)) (c : Caches) (r : Ref) (k : QKind) : Caches × List Ref :=
+  match c.get r k with
+  | some s => (c, present r k s)
+  | none => let s := closure edges eedges r k; (c.put r k s, present r k s)
+
+def runQueries (edges eedges : List (Ref × Ref)) : Caches → List (Ref × QKind) → List (List Ref)
   | _, [] => []
-  | c, (r, k) :: qs => let (c', a) := query edges eedges n c r k; sortRefs a :: runQueries edges eedges n c' qs
+  | c, (r, k) :: qs => let (c', a) := query edges eedges c r k; sortRefs a :: runQueries edges eedges c' qs
 
 structure C05Obs where
   failed : Bool
@@ -92,7 +109,7 @@ deriving Repr, DecidableEq, FromJson, ToJson
 def c05Model (w : World) (qs : List (Ref × QKind)) : C05Obs :=
   match hydrate w with
   | .error _ => ⟨true, [], false⟩
-  | .ok g => ⟨false, runQueries (usesList w g) (enumUses w g) (allMsgs w).length Caches.empty qs, false⟩
+  | .ok g => ⟨false, runQueries (usesList w g) (enumUses w g) Caches.empty qs, false⟩
 
 /-! declarative side: reachability by saturation -/
 def saturate (edges : List (Ref × Ref)) (fwd : Bool) : Nat → List Ref → List Ref
